@@ -7,6 +7,7 @@ import (
 	"go/types"
 	"strings"
 	"sync"
+	"unsafe"
 
 	"golang.org/x/tools/go/ssa"
 )
@@ -28,6 +29,8 @@ type Config struct {
 }
 
 type fnInfo struct {
+	slots     map[uintptr]int32 // ssa.Value (params, value-instructions) → register slot
+	nslots    int
 	name      string
 	redirect  *ssa.Function
 	noop      bool
@@ -38,15 +41,42 @@ type intrinsicFn func(in *Interp, fn *ssa.Function, args []Value) Value
 
 type frame struct {
 	fn        *ssa.Function
-	locals    map[ssa.Value]Value
+	fi        *fnInfo
+	locals    []Value
 	bind      []Value
 	defers    []func()
 	caller    *frame
 	panicking *goPanic
 	recovered bool
 	result    Value
-	visits    map[*ssa.BasicBlock]int
+	visits    []int32
 }
+
+func valKey(v ssa.Value) uintptr { return (*[2]uintptr)(unsafe.Pointer(&v))[1] }
+
+func (fi *fnInfo) ensureSlots(fn *ssa.Function) {
+	if fi.slots != nil {
+		return
+	}
+	m := map[uintptr]int32{}
+	n := int32(0)
+	for _, p := range fn.Params {
+		m[valKey(p)] = n
+		n++
+	}
+	for _, b := range fn.Blocks {
+		for _, ins := range b.Instrs {
+			if v, ok := ins.(ssa.Value); ok {
+				m[valKey(v)] = n
+				n++
+			}
+		}
+	}
+	fi.nslots = int(n)
+	fi.slots = m
+}
+
+func (fr *frame) set(v ssa.Value, val Value) { fr.locals[fr.fi.slots[valKey(v)]] = val }
 
 type lockState struct {
 	writer  bool
@@ -54,30 +84,31 @@ type lockState struct {
 }
 
 type Interp struct {
-	cfg       *Config
-	prog      *ssa.Program
-	ex        *Explorer
-	tb        *TB
-	Instr     int64
-	Funcs     map[string]int64
-	globals   map[*ssa.Global]*Cell
-	stored    map[*ssa.Global]bool
-	pkgInit   map[*ssa.Package]string // "" = running/ok, else reason of incomplete init
-	locks     map[*Cell]*lockState
-	onces     map[*Cell]bool
-	syncMaps  map[*Cell]*MapV
-	atomics   map[*Cell]Value
-	depth     int
-	initMode  int
-	cur       *frame
-	intrUsed  map[string]int
-	redirUsed map[string]int
-	nowCount  int
-	lastNow   *Term
+	cfg        *Config
+	prog       *ssa.Program
+	ex         *Explorer
+	tb         *TB
+	Instr      int64
+	Funcs      map[string]int64
+	globals    map[*ssa.Global]*Cell
+	stored     map[*ssa.Global]bool
+	pkgInit    map[*ssa.Package]string // "" = running/ok, else reason of incomplete init
+	locks      map[*Cell]*lockState
+	onces      map[*Cell]bool
+	syncMaps   map[*Cell]*MapV
+	atomics    map[*Cell]Value
+	depth      int
+	initMode   int
+	cur        *frame
+	intrUsed   map[string]int
+	redirUsed  map[string]int
+	nowCount   int
+	lastNow    *Term
+	constCache map[*ssa.Const]Value
 }
 
 func NewInterp(cfg *Config, ex *Explorer) *Interp {
-	in := &Interp{cfg: cfg, prog: cfg.prog, ex: ex, tb: ex.tb, Funcs: map[string]int64{}, intrUsed: map[string]int{}, redirUsed: map[string]int{}}
+	in := &Interp{cfg: cfg, prog: cfg.prog, ex: ex, tb: ex.tb, Funcs: map[string]int64{}, intrUsed: map[string]int{}, redirUsed: map[string]int{}, constCache: map[*ssa.Const]Value{}}
 	in.resetPath()
 	return in
 }
@@ -138,6 +169,18 @@ func (in *Interp) info(fn *ssa.Function) *fnInfo {
 }
 
 func (in *Interp) constVal(c *ssa.Const) Value {
+	if v, ok := in.constCache[c]; ok {
+		return v
+	}
+	v := in.constVal1(c)
+	switch v.(type) {
+	case *Term, string, float64:
+		in.constCache[c] = v // immutable scalar: cacheable across paths (constant terms are persistent)
+	}
+	return v
+}
+
+func (in *Interp) constVal1(c *ssa.Const) Value {
 	if c.Value == nil {
 		return in.zero(c.Type())
 	}
@@ -184,11 +227,11 @@ func (in *Interp) get(fr *frame, v ssa.Value) Value {
 	case *ssa.Global:
 		return in.global(x)
 	}
-	r, ok := fr.locals[v]
+	slot, ok := fr.fi.slots[valKey(v)]
 	if !ok {
-		panic("no value for " + v.Name() + " in " + fr.fn.String())
+		panic("no slot for " + v.Name() + " in " + fr.fn.String())
 	}
-	return r
+	return fr.locals[slot]
 }
 
 // ---------- globals and package init ----------
@@ -239,7 +282,9 @@ func (in *Interp) ensureInit(pkg *ssa.Package) {
 			in.pkgInit[pkg] = fmt.Sprint(r)
 		}
 	}()
-	fr := &frame{fn: initFn, locals: map[ssa.Value]Value{}, visits: map[*ssa.BasicBlock]int{}}
+	ifi := in.info(initFn)
+	ifi.ensureSlotsLocked(initFn)
+	fr := &frame{fn: initFn, fi: ifi, locals: make([]Value, ifi.nslots), visits: make([]int32, len(initFn.Blocks))}
 	in.run(fr, initFn.Blocks[0], nil)
 }
 
@@ -272,10 +317,9 @@ func (in *Interp) Call(fn *ssa.Function, args []Value, bind []Value) (ret Value)
 		panic(pathAbort{kind: "bound", reason: "call depth exceeded in " + fi.name})
 	}
 	in.Funcs[fi.name]++
-	fr := &frame{fn: fn, locals: make(map[ssa.Value]Value, 16), bind: bind, caller: in.cur, visits: map[*ssa.BasicBlock]int{}}
-	for i, p := range fn.Params {
-		fr.locals[p] = args[i]
-	}
+	fi.ensureSlotsLocked(fn)
+	fr := &frame{fn: fn, fi: fi, locals: make([]Value, fi.nslots), bind: bind, caller: in.cur, visits: make([]int32, len(fn.Blocks))}
+	copy(fr.locals, args[:len(fn.Params)])
 	saved := in.cur
 	in.cur = fr
 	defer func() {
@@ -426,8 +470,8 @@ func (in *Interp) nativeInvoke(name string, args []Value) Value {
 
 func (in *Interp) run(fr *frame, b *ssa.BasicBlock, prev *ssa.BasicBlock) Value {
 	for {
-		fr.visits[b]++
-		if fr.visits[b] > in.cfg.unwind {
+		fr.visits[b.Index]++
+		if int(fr.visits[b.Index]) > in.cfg.unwind {
 			panic(pathAbort{kind: "bound", reason: fmt.Sprintf("unwinding bound %d exceeded in %s", in.cfg.unwind, fr.fn.String())})
 		}
 		var next *ssa.BasicBlock
@@ -448,7 +492,7 @@ func (in *Interp) run(fr *frame, b *ssa.BasicBlock, prev *ssa.BasicBlock) Value 
 				nphi++
 			}
 			for i := 0; i < nphi; i++ {
-				fr.locals[b.Instrs[i].(*ssa.Phi)] = phiVals[i]
+				fr.set(b.Instrs[i].(*ssa.Phi), phiVals[i])
 			}
 		}
 		for _, ins := range b.Instrs[nphi:] {
@@ -529,9 +573,9 @@ func (in *Interp) run(fr *frame, b *ssa.BasicBlock, prev *ssa.BasicBlock) Value 
 			case *ssa.DebugRef:
 			case ssa.Value:
 				if in.initMode > 0 {
-					fr.locals[x] = in.evalPoison(fr, x)
+					fr.set(x, in.evalPoison(fr, x))
 				} else {
-					fr.locals[x] = in.eval(fr, x)
+					fr.set(x, in.eval(fr, x))
 				}
 			default:
 				panic(fmt.Sprintf("instr %T", ins))
@@ -1627,4 +1671,16 @@ func (in *Interp) lookupMethod(typ types.Type, pkg *types.Package, name string) 
 		return nil
 	}
 	return in.prog.MethodValue(sel)
+}
+
+var slotMu sync.Mutex
+
+// ensureSlotsLocked: fnInfo is shared by all workers; build the slot table once
+func (fi *fnInfo) ensureSlotsLocked(fn *ssa.Function) {
+	if fi.slots != nil {
+		return
+	}
+	slotMu.Lock()
+	fi.ensureSlots(fn)
+	slotMu.Unlock()
 }
